@@ -1,13 +1,384 @@
 import Hms
 import Driver.Decode
-/-! Driver commands of the "Values" area. `dispatchValues cmd payload` answers `some line` for the
-commands it owns and `none` otherwise. -/
+import Hms.Value.Val
+import Hms.Value.Cast
+import Hms.Value.Display
+import Hms.Value.Json
+import Hms.Value.Heap
+/-! Driver commands of the "Values" area (C12, C13). `dispatchValues cmd payload` answers
+`some line` for the commands it owns and `none` otherwise. The S-expression syntax of values and
+types is the one of `harness/values.go`. -/
 namespace Driver
-open Hms
+open Hms Hms.Value
+
+namespace ValCodec
+
+partial def decVal (s : Sexp) : Option Val :=
+  match s with
+  | .atom "null" => some .null
+  | .atom "none" => some .none
+  | .atom "fn" => some .fn
+  | .list [.atom "some", v] => (decVal v).map .some
+  | .list [.atom "i", n] => n.asInt?.map fun i => .int (BitVec.ofInt 64 i)
+  | .list [.atom "f", m, e] => do
+      let m ← m.asInt?
+      let e ← e.asNat?
+      pure (.flt (Dy.norm ⟨m, e⟩))
+  | .list [.atom "b", b] => b.asBool?.map .bool
+  | .list [.atom "s", x] => x.asStr?.map .str
+  | .list (.atom "l" :: xs) => do
+      let vs ← xs.mapM decVal
+      pure (.list (Vals.ofList vs))
+  | .list (.atom "o" :: fs) => do
+      let kvs ← fs.mapM decField
+      pure (.obj (Fields.ofList kvs))
+  | .list (.atom "a" :: fs) => do
+      let kvs ← fs.mapM decField
+      pure (.anyobj (Fields.ofList kvs))
+  | .list [.atom "r", a, b, incl] => do
+      let a ← a.asInt?
+      let b ← b.asInt?
+      let i ← incl.asBool?
+      pure (.range (BitVec.ofInt 64 a) (BitVec.ofInt 64 b) i)
+  | _ => none
+where
+  decField (s : Sexp) : Option (String × Val) :=
+    match s with
+    | .list [k, v] => do
+        let k ← k.asStr?
+        let v ← decVal v
+        pure (k, v)
+    | _ => none
+
+partial def decTy (s : Sexp) : Option Ty :=
+  match s with
+  | .atom "any" => some .any
+  | .atom "null" => some .null
+  | .atom "int" => some .int
+  | .atom "float" => some .float
+  | .atom "bool" => some .bool
+  | .atom "str" => some .str
+  | .atom "range" => some .range
+  | .atom "anyobj" => some .anyobj
+  | .atom "fn" => some .fn
+  | .list [.atom "list", t] => (decTy t).map .list
+  | .list [.atom "opt", t] => (decTy t).map .opt
+  | .list (.atom "obj" :: fs) => do
+      let kts ← fs.mapM fun f =>
+        match f with
+        | .list [k, t] => do
+            let k ← k.asStr?
+            let t ← decTy t
+            pure (k, t)
+        | _ => none
+      pure (.obj (TyFields.ofList kts))
+  | _ => none
+
+def insertKV (kv : String × String) : List (String × String) → List (String × String)
+  | [] => [kv]
+  | x :: xs => if kv.1 < x.1 then kv :: x :: xs else x :: insertKV kv xs
+
+def sortKV : List (String × String) → List (String × String)
+  | [] => []
+  | x :: xs => insertKV x (sortKV xs)
+
+def boolS (b : Bool) : String := if b then "true" else "false"
+
+mutual
+partial def encVal : Val → String
+  | .null => "null"
+  | .none => "none"
+  | .fn => "fn"
+  | .some v => s!"(some {encVal v})"
+  | .int i => s!"(i {i.toInt})"
+  | .flt d => let n := d.norm; s!"(f {n.m} {n.e})"
+  | .bool b => s!"(b {boolS b})"
+  | .str s => s!"(s {Sexp.hexOfString s})"
+  | .list xs => "(l" ++ String.join (xs.toList.map fun v => " " ++ encVal v) ++ ")"
+  | .obj fs => "(o" ++ encFields fs ++ ")"
+  | .anyobj fs => "(a" ++ encFields fs ++ ")"
+  | .range a b i => s!"(r {a.toInt} {b.toInt} {boolS i})"
+partial def encFields (fs : Fields) : String :=
+  let kvs := fs.toList.map fun kv => (kv.1, encVal kv.2)
+  String.join ((sortKV kvs).map fun kv => s!" ({Sexp.hexOfString kv.1} {kv.2})")
+end
+
+def pathS (p : Path) : String :=
+  String.join (p.map fun c =>
+    match c with
+    | .field k => "." ++ k
+    | .index i => s!"[{i}]"
+    | .optInner => "<option-inner>")
+
+def clsS : ErrClass → String
+  | .incompatible => "incompatible"
+  | .unexpectedField _ => "unexpected-field"
+  | .missingField _ => "missing-field"
+
+def clsKey : ErrClass → String
+  | .incompatible => ""
+  | .unexpectedField k => k
+  | .missingField k => k
+
+def errS (e : CastErr) : String := s!"{clsS e.cls}:{Sexp.hexOfString (clsKey e.cls)}:{Sexp.hexOfString (pathS e.path)}"
+
+/-! JSON trees travel as S-expressions: null | (jb true) | (jn m e intLit) | (js x<hex>) | (ja J…) | (jo (x<key> J)…) -/
+
+partial def decJ (s : Sexp) : Option J :=
+  match s with
+  | .atom "null" => some .null
+  | .list [.atom "jb", b] => b.asBool?.map .bool
+  | .list [.atom "jn", m, e, l] => do
+      let m ← m.asInt?
+      let e ← e.asNat?
+      let l ← l.asBool?
+      pure (.num (Dy.norm ⟨m, e⟩) l)
+  | .list [.atom "js", x] => x.asStr?.map .str
+  | .list (.atom "ja" :: xs) => do
+      let js ← xs.mapM decJ
+      pure (.arr (js.foldr (fun j acc => .cons j acc) .nil))
+  | .list (.atom "jo" :: fs) => do
+      let kvs ← fs.mapM fun f =>
+        match f with
+        | .list [k, v] => do
+            let k ← k.asStr?
+            let v ← decJ v
+            pure (k, v)
+        | _ => none
+      pure (.obj (kvs.foldr (fun kv acc => .cons kv.1 kv.2 acc) .nil))
+  | _ => none
+
+mutual
+partial def encJ : J → String
+  | .null => "null"
+  | .bool b => s!"(jb {boolS b})"
+  | .num d l => let n := d.norm; s!"(jn {n.m} {n.e} {boolS l})"
+  | .str s => s!"(js {Sexp.hexOfString s})"
+  | .arr xs => "(ja" ++ encJs xs ++ ")"
+  | .obj fs => "(jo" ++ String.join ((sortKV (encJFields fs)).map fun kv => s!" ({Sexp.hexOfString kv.1} {kv.2})") ++ ")"
+partial def encJs : Js → String
+  | .nil => ""
+  | .cons j js => " " ++ encJ j ++ encJs js
+partial def encJFields : JFields → List (String × String)
+  | .nil => []
+  | .cons k j fs => (k, encJ j) :: encJFields fs
+end
+
+end ValCodec
+
+open ValCodec
+
+def parseArgs (payload : String) : Option (List Sexp) :=
+  (Sexp.parse ("(" ++ payload ++ ")")).map Sexp.items
+
+def flagsS (v : Val) (T : Ty) : String := s!"wf={boolS (v.wf && T.wf)} data={boolS v.data}"
+
+/-- `vcast <allow> V T` → `OK <V'> conf=<conforms T V'> …` | `ERR <first> ALT <all possible> …` -/
+def cmdVCast (payload : String) : String :=
+  match parseArgs payload with
+  | some [a, v, t] =>
+    match a.asBool?, decVal v, decTy t with
+    | some allow, some v, some T =>
+      let conv := boolS (convertible allow T v)
+      let conf := boolS (conforms T v)
+      match castAll allow T v [] with
+      | .ok v' => s!"OK {encVal v'} outconf={boolS (conforms T v')} same={boolS (v'.isEqual v)} conf={conf} conv={conv} {flagsS v T}"
+      | .error es => s!"ERR {" ".intercalate (es.map errS)} conf={conf} conv={conv} {flagsS v T}"
+    | _, _, _ => "BAD-INPUT"
+  | _ => "BAD-INPUT"
+
+/-- `vconf V T` → does the (Go-produced) value conform to the type? -/
+def cmdVConf (payload : String) : String :=
+  match parseArgs payload with
+  | some [v, t] =>
+    match decVal v, decTy t with
+    | some v, some T => boolS (conforms T v)
+    | _, _ => "BAD-INPUT"
+  | _ => "BAD-INPUT"
+
+def decPath (s : String) : Option Path :=
+  -- path syntax of the Go messages: .name  [n]  <option-inner>
+  let rec go (cs : List Char) (fuel : Nat) (acc : Path) : Option Path :=
+    match fuel with
+    | 0 => none
+    | fuel + 1 =>
+      match cs with
+      | [] => some acc.reverse
+      | '.' :: rest =>
+        let name := rest.takeWhile (fun c => c != '.' && c != '[' && c != '<')
+        go (rest.drop name.length) fuel (.field (String.ofList name) :: acc)
+      | '[' :: rest =>
+        let ds := rest.takeWhile (· != ']')
+        match (String.ofList ds).toNat? with
+        | some n => go (rest.drop (ds.length + 1)) fuel (.index n :: acc)
+        | none => none
+      | '<' :: rest =>
+        let w := rest.takeWhile (· != '>')
+        if String.ofList w == "option-inner" then go (rest.drop (w.length + 1)) fuel (.optInner :: acc) else none
+      | _ => none
+  go s.toList (s.length + 1) []
+
+/-- `verr <allow> V T <class> x<key> x<path>` → does the error Go reported address an offending
+sub-value (specification side, independent of `castAll`)? -/
+def cmdVErr (payload : String) : String :=
+  match parseArgs payload with
+  | some [a, v, t, .atom cls, key, path] =>
+    match a.asBool?, decVal v, decTy t, key.asStr?, path.asStr? with
+    | some allow, some v, some T, some key, some pathStr =>
+      let c : ErrClass := match cls with
+        | "unexpected-field" => .unexpectedField key
+        | "missing-field" => .missingField key
+        | _ => .incompatible
+      match decPath pathStr with
+      | none => "BAD-PATH"
+      | some p =>
+        match subAt p v T with
+        | none => "NO-SUCH-PATH"
+        | some (vs, Ts) => if offends allow c vs Ts && !convertible allow Ts vs then "OFFENDS" else "NOT-OFFENDING"
+    | _, _, _, _, _ => "BAD-INPUT"
+  | _ => "BAD-INPUT"
+
+/-- `veq V V` → `true|false refl=.. wf=..` -/
+def cmdVEq (payload : String) : String :=
+  match parseArgs payload with
+  | some [a, b] =>
+    match decVal a, decVal b with
+    | some a, some b => s!"{boolS (a.isEqual b)} wf={boolS (a.wf && b.wf)} data={boolS (a.data && b.data)} syn={boolS (a == b)}"
+    | _, _ => "BAD-INPUT"
+  | _ => "BAD-INPUT"
+
+/-- `vdisp vm|tree V` → x<hex> -/
+def cmdVDisp (payload : String) : String :=
+  match parseArgs payload with
+  | some [.atom lib, v] =>
+    match decVal v with
+    | some v => Sexp.hexOfString (if lib == "tree" then displayTree v else displayVM v)
+    | none => "BAD-INPUT"
+  | _ => "BAD-INPUT"
+
+/-- `vjson vm|tree V` → `OK <J>` | `ERR` -/
+def cmdVJson (payload : String) : String :=
+  match parseArgs payload with
+  | some [.atom lib, v] =>
+    match decVal v with
+    | some v =>
+      match (if lib == "tree" then marshalTree v else marshalVM v) with
+      | some j => "OK " ++ encJ j
+      | none => "ERR"
+    | none => "BAD-INPUT"
+  | _ => "BAD-INPUT"
+
+/-- `vparse J` → untyped unmarshal -/
+def cmdVParse (payload : String) : String :=
+  match parseArgs payload with
+  | some [j] =>
+    match decJ j with
+    | some j => "OK " ++ encVal (unmarshalUntyped j)
+    | none => "BAD-INPUT"
+  | _ => "BAD-INPUT"
+
+/-- `vunjson vm|tree J T`: vm = typed unmarshal; tree = untyped unmarshal, then the annotated-let cast -/
+def cmdVUnjson (payload : String) : String :=
+  match parseArgs payload with
+  | some [.atom lib, j, t] =>
+    match decJ j, decTy t with
+    | some j, some T =>
+      if lib == "tree" then
+        match castAll false T (unmarshalUntyped j) [] with
+        | .ok v => "OK " ++ encVal v
+        | .error _ => "ERR cast"
+      else
+        match unmarshalTyped T j with
+        | some v => "OK " ++ encVal v
+        | none => "PANIC"
+    | _, _ => "BAD-INPUT"
+  | _ => "BAD-INPUT"
+
+/-- `vrt vm|tree V T` → `repr=<jsonRepr> prog=<in-program class> back=<V'> eq=<..>` -/
+def cmdVRt (payload : String) : String :=
+  match parseArgs payload with
+  | some [.atom lib, v, t] =>
+    match decVal v, decTy t with
+    | some v, some T =>
+      let repr := jsonRepr T v && v.wf && T.wf
+      let prog := repr && noIntegralFloat v
+      let j := if lib == "tree" then marshalTree v else marshalVM v
+      match j with
+      | none => s!"repr={boolS repr} prog={boolS prog} ERR marshal"
+      | some j =>
+        let back : Option Val :=
+          if lib == "tree" then
+            match castAll false T (unmarshalUntyped j) [] with
+            | .ok v' => some v'
+            | .error _ => none
+          else unmarshalTyped T j
+        match back with
+        | none => s!"repr={boolS repr} prog={boolS prog} ERR unmarshal"
+        | some v' => s!"repr={boolS repr} prog={boolS prog} back={encVal v'} eq={boolS (v.isEqual v')}"
+    | _, _ => "BAD-INPUT"
+  | _ => "BAD-INPUT"
+
+/-- `vprog <allow> J T`: what a program sees — `parse_json`, then the cast of `as` (allow) or of an
+annotated `let` (no allow): `OK <V'> disp=x<Display>` | `ERR <all possible errors>` -/
+def cmdVProg (payload : String) : String :=
+  match parseArgs payload with
+  | some [a, j, t] =>
+    match a.asBool?, decJ j, decTy t with
+    | some allow, some j, some T =>
+      let v := unmarshalUntyped j
+      match castAll allow T v [] with
+      | .ok v' => s!"OK {encVal v'} disp={Sexp.hexOfString (displayVM v')} raw={encVal v}"
+      | .error es => s!"ERR {" ".intercalate (es.map errS)} raw={encVal v}"
+    | _, _, _ => "BAD-INPUT"
+  | _ => "BAD-INPUT"
+
+/-! Mutation: `vmut clone|orig V (OP…)` with the op syntax of `harness/values.go`. -/
+
+def decStep (s : Sexp) : Option PathComp :=
+  match s with
+  | .list [.atom "i", n] => n.asNat?.map .index
+  | .list [.atom "k", k] => k.asStr?.map .field
+  | .list [.atom "u"] => some .optInner
+  | _ => none
+
+def decOp (s : Sexp) : Option Heap.Op :=
+  match s with
+  | .list [.atom "push", .list p, v] => do pure ⟨← p.mapM decStep, .push (← decVal v)⟩
+  | .list [.atom "push_front", .list p, v] => do pure ⟨← p.mapM decStep, .pushFront (← decVal v)⟩
+  | .list [.atom "pop", .list p] => do pure ⟨← p.mapM decStep, .pop⟩
+  | .list [.atom "pop_front", .list p] => do pure ⟨← p.mapM decStep, .popFront⟩
+  | .list [.atom "insert", .list p, i, v] => do pure ⟨← p.mapM decStep, .insert (← i.asInt?) (← decVal v)⟩
+  | .list [.atom "remove", .list p, i] => do pure ⟨← p.mapM decStep, .remove (← i.asInt?)⟩
+  | .list [.atom "concat", .list p, v] => do pure ⟨← p.mapM decStep, .concat (← decVal v)⟩
+  | .list [.atom "seti", .list p, i, v] => do pure ⟨← p.mapM decStep, .setIndex (← i.asInt?) (← decVal v)⟩
+  | .list [.atom "setf", .list p, k, v] => do pure ⟨← p.mapM decStep, .setField (← k.asStr?) (← decVal v)⟩
+  | .list [.atom "assign", .list p, v] => do pure ⟨← p.mapM decStep, .assign (← decVal v)⟩
+  | _ => none
+
+def cmdVMut (payload : String) : String :=
+  match parseArgs payload with
+  | some [.atom side, v, .list ops] =>
+    match decVal v, ops.mapM decOp with
+    | some v, some ops =>
+      let r := Heap.cloneAndMutate (side == "orig") v ops
+      let showV (o : Option Val) : String := match o with | some x => encVal x | none => "FUEL"
+      s!"applied={r.applied} orig={showV r.orig} clone={showV r.clone}"
+    | _, _ => "BAD-INPUT"
+  | _ => "BAD-INPUT"
 
 def dispatchValues (cmd : String) (payload : String) : Option String :=
-  let _ := payload
   match cmd with
+  | "vcast" => some (cmdVCast payload)
+  | "vconf" => some (cmdVConf payload)
+  | "verr" => some (cmdVErr payload)
+  | "veq" => some (cmdVEq payload)
+  | "vdisp" => some (cmdVDisp payload)
+  | "vjson" => some (cmdVJson payload)
+  | "vparse" => some (cmdVParse payload)
+  | "vunjson" => some (cmdVUnjson payload)
+  | "vrt" => some (cmdVRt payload)
+  | "vprog" => some (cmdVProg payload)
+  | "vmut" => some (cmdVMut payload)
   | _ => none
 
 end Driver
